@@ -149,6 +149,15 @@ crypt_sha1crypt_rn (const char *phrase, size_t phr_size,
 
   sl = (size_t)(sp - setting);
 
+  /* The salt is echoed into the output together with the magic, the
+     iteration count (at most 20 digits), two '$' and the hash; refuse
+     salts that would not fit instead of writing past the buffer.  */
+  if (sl > out_size - (strlen (magic) + 20 + 2 + SHA1_OUTPUT_SIZE + 1))
+    {
+      errno = ERANGE;
+      return;
+    }
+
   /*
    * Now get to work...
    * Prime the pump with <salt><magic><iterations>
